@@ -5,6 +5,7 @@ import (
 	"os"
 	"path/filepath"
 	"strings"
+	"time"
 
 	"github.com/influxdata/influxql"
 
@@ -97,6 +98,18 @@ var repros = map[string]reproCase{
 		},
 		ask: "cardinality", sig: "C14/cardinality-high/tsi1/" + replayClass,
 	},
+	// ... and the phantom id keeps its measurement listed after the measurement is dropped
+	"tsi1-measurement-lingers-after-replay-skip": {
+		maxLog: 256, shards: []uint64{1},
+		steps: []reproStep{
+			{writeN: "1 cpu 400"},
+			{drop: "cpu host h000"},
+			{sfile: true},
+			{reopen: true},
+			{dropM: "cpu"},
+		},
+		ask: "measurements", sig: "C14/lingering/tsi1/" + phantomClass,
+	},
 	"tsi1-tombstoned-tag-key-other-shard": {
 		maxLog: 1, shards: []uint64{1, 2},
 		steps: []reproStep{
@@ -108,7 +121,36 @@ var repros = map[string]reproCase{
 	},
 }
 
+// reproDeleteDeadlock shows the hang the delete work-around of this check avoids
+// (deadlock freedom is C19's subject; reported to the coordinator, not judged here).
+func reproDeleteDeadlock(dir string) {
+	e := &Env{Root: filepath.Join(dir, "tsi1"), Index: "tsi1", ShardIDs: []uint64{1}, MaxLog: 1}
+	if err := e.Open(); err != nil {
+		fmt.Fprintf(os.Stderr, "harness: open: %v\n", err)
+		os.Exit(ev.ExitBroken)
+	}
+	e.Write(1, []Pt{{newSeries("cpu", map[string]string{"host": "a"}), 1000}})
+	e.Write(1, []Pt{{newSeries("mem", map[string]string{"host": "a"}), 1000}})
+	e.WaitTSI()
+	res, dump := ev.Watch(20*time.Second, 5*time.Second, func() {
+		// DROP SERIES WHERE host = 'a' over two measurements, as one statement
+		e.Store.DeleteSeries(dbName, nil, leaf("host", "=", "a").Expr())
+	})
+	r.Eval(1)
+	fmt.Printf("repro tsi1-delete-deadlock: MaxIndexLogFileSize=1; write cpu,host=a; write mem,host=a; Store.DeleteSeries(db0, nil, host = 'a') finished=%v deadlock-evidence=%v\n", res == ev.Finished, res == ev.Deadlocked)
+	if res != ev.Finished {
+		r.Inconclusive("Store.DeleteSeries over two measurements did not finish (C19's subject)")
+		saveHang("repro/tsi1-delete-deadlock", "Store.DeleteSeries(db0, nil, host = 'a')", dump)
+		return
+	}
+	e.Close()
+}
+
 func runRepro(name, dir string) {
+	if name == "tsi1-delete-deadlock" {
+		reproDeleteDeadlock(dir)
+		return
+	}
 	rc, ok := repros[name]
 	if !ok {
 		var names []string
@@ -202,6 +244,8 @@ func runRepro(name, dir string) {
 					got, err = e.SeriesByExpr(rc.shards, f[2], nil)
 				}
 			}
+		case rc.ask == "measurements":
+			got, err = e.MeasurementNames(nil)
 		case rc.ask == "cardinality":
 			var c, n int64
 			c, err = e.SeriesCardinality()
